@@ -1,8 +1,9 @@
-(* Proofs/TicksLogGroupM.v — (group hM) two Q-only facts about Log scales grouped for Properties/C17.v
+(* Proofs/TicksLogGroupM.v — (group hM) three Q-only facts about Log scales grouped for Properties/C17.v
    (one Print Assumptions): the exponent/count bounds on float64 domains (Proofs/TicksLogCountBound.v) and the
-   ends of Nice on a negative domain (Proofs/TicksLogNeg.v).  Closed under the global context. *)
-From Coq Require Import ZArith QArith.
-From MM Require Import Base.Num Model.Ticks Proofs.TicksLogCountBound Proofs.TicksLogNeg.
+   ends of Nice on a negative domain (Proofs/TicksLogNeg.v), the minor-tick list is strictly ascending
+   (Proofs/TicksLogMinorOrder.v).  Closed under the global context. *)
+From Coq Require Import ZArith QArith List Sorted.
+From MM Require Import Base.Num Model.Ticks Proofs.TicksLogCountBound Proofs.TicksLogNeg Proofs.TicksLogMinorOrder.
 Local Open Scope Z_scope.
 
 Lemma log_float_domain_facts :
@@ -12,5 +13,6 @@ Lemma log_float_domain_facts :
      -1074 <= le_in_lo e <= 1024 /\ -1074 <= le_in_hi e <= 1024 /\ -1074 <= le_out_lo e <= 1024 /\ -1074 <= le_out_hi e <= 1024) /\
   (forall b mn mx o a c, (mx < 0)%Q -> (mn < mx)%Q -> log_nice b mn mx o = (a, c) ->
      ((a == mn)%Q \/ exists n, a = (- qpow b n)%Q /\ f64_pos_ok (qpow b n) = true) /\
-     ((c == mx)%Q \/ exists n, c = (- qpow b n)%Q /\ f64_pos_ok (qpow b n) = true)).
-Proof. split; [exact log_counts_bounded_f64 | exact log_nice_ends_are_powers_neg]. Qed.
+     ((c == mx)%Q \/ exists n, c = (- qpow b n)%Q /\ f64_pos_ok (qpow b n) = true)) /\
+  (forall b e emin emax ro l, 2 <= b -> l < 0 -> StronglySorted Qlt (log_ticks_pos b e emin emax ro l)).
+Proof. split; [exact log_counts_bounded_f64 | split; [exact log_nice_ends_are_powers_neg | exact log_minor_ticks_sorted]]. Qed.
